@@ -46,6 +46,12 @@ def battery():
                           pre_aggregations=[PreAggregation(name="daily_by_status", measures=["total", "n"], dimensions=["status"], time_dimension="day", granularity="day"),
                                             PreAggregation(name="daily_by_kind", measures=["total", "n"], dimensions=["kind"], time_dimension="day", granularity="day"),
                                             PreAggregation(name="monthly_all", measures=["total"], dimensions=["kind", "status"], time_dimension="day", granularity="month")]))
+        # model-level metrics that EXTEND others (every attribute still written out, so that the definitions mean the same with or without inheritance resolution)
+        L.add_model(Model(name="inh", table="inh", primary_key="id", dimensions=[Dimension(name="kind", type="categorical")],
+                          metrics=[Metric(name="total", agg="sum", sql="amount"), Metric(name="n", agg="count"), Metric(name="share", type="ratio", numerator="total", denominator="n"),
+                                   Metric(name="share2", type="ratio", extends="share", numerator="total", denominator="n"),
+                                   Metric(name="net", type="derived", sql="total - n"), Metric(name="net2", extends="net", type="derived", sql="total - n - n"),
+                                   Metric(name="big", agg="sum", sql="amount", extends="total", filters=["amount > 10"])]))
         L.add_metric(Metric(name="cross", type="derived", sql="orders.total + customers.total + items.total"))
         L.add_metric(Metric(name="cross2", type="derived", sql="returns.n / orders.n"))
         L.add_metric(Metric(name="cross_ratio", type="ratio", numerator="items.total", denominator="orders.total"))
@@ -89,6 +95,10 @@ def battery():
         # the multi-fact form (metrics of two models across a many_to_one hop) with row filters on several models, metric models and others
         dict(metrics=["orders.total", "customers.n"], dimensions=["regions.kind"], filters=["orders.status = 'a'", "regions.kind = 'n'", "stores.kind = 'k'", "customers.status = 'c'", "items.kind = 'z'"]),
         dict(metrics=["returns.n", "orders.n"], dimensions=[], filters=["stores.status = 's' AND customers.kind = 'c'", "returns.kind = 'x'"], segments=["orders.done"]),
+        # metrics that extend other metrics of their model; an unqualified name of a model-level metric is not a graph-level metric, whatever was compiled before
+        dict(metrics=["inh.share2", "inh.net2", "inh.big"], dimensions=["inh.kind"]),
+        dict(metrics=["net2"], dimensions=["inh.kind"]),
+        dict(metrics=["inh.net", "inh.share"], dimensions=[]),
     ]
     return layer, queries
 
@@ -141,7 +151,19 @@ def main():
             os.waitpid(pid, 0)
         return
     L = layer()
-    snapshot = lambda: json.dumps({n: m.model_dump(mode="json") for n, m in L.graph.models.items()}, sort_keys=True, default=str) + json.dumps({n: m.model_dump(mode="json") for n, m in L.graph.metrics.items()}, sort_keys=True, default=str)
+    # an unrelated layer created the default way (auto_register=True) is the process's CURRENT layer while the battery is compiled: nothing may be registered on it
+    from sidemantic import SemanticLayer
+    from sidemantic.core.registry import set_current_layer
+    ambient = SemanticLayer(connection="duckdb:///:memory:", auto_register=False)
+
+    class Ambient:          # `ambient` is current only while compile / explain run (the battery's own Model(...) calls must not register there)
+        def __enter__(self):
+            set_current_layer(ambient)
+
+        def __exit__(self, *a):
+            set_current_layer(None)
+    snapshot = lambda: (json.dumps({n: m.model_dump(mode="json") for n, m in L.graph.models.items()}, sort_keys=True, default=str) + json.dumps({n: m.model_dump(mode="json") for n, m in L.graph.metrics.items()}, sort_keys=True, default=str)
+                        + json.dumps([sorted(ambient.graph.models), sorted(ambient.graph.metrics)]))
     fresh = snapshot()              # the registered definitions before ANY compile / explain call
     out = []
     if history:
@@ -149,16 +171,20 @@ def main():
         order = list(range(len(queries)))[::-1] + list(range(0, len(queries), 2))
         for k in order:
             try:
-                L.compile(**queries[k])
+                with Ambient():
+                    L.compile(**queries[k])
             except Exception:
                 pass
         try:
-            L.explain(**{k: v for k, v in queries[1].items() if k in ("metrics", "dimensions", "filters")})
+            with Ambient():
+                L.explain(**{k: v for k, v in queries[1].items() if k in ("metrics", "dimensions", "filters")})
         except Exception:
             pass
     for i, q in enumerate(queries):
         try:
-            sql = L.compile(**q) if history else layer().compile(**q)
+            Lq = L if history else layer()
+            with Ambient():
+                sql = Lq.compile(**q)
         except Exception as e:
             sql = "ERROR %s: %s" % (type(e).__name__, e)
         out.append(sql)
@@ -166,8 +192,9 @@ def main():
         # the shared layer has not been used yet: compile (and explain) everything on it once, for the purity check
         for q in queries:
             try:
-                L.compile(**q)
-                L.explain(**{k: v for k, v in q.items() if k in ("metrics", "dimensions", "filters")})
+                with Ambient():
+                    L.compile(**q)
+                    L.explain(**{k: v for k, v in q.items() if k in ("metrics", "dimensions", "filters")})
             except Exception:
                 pass
     before, after = fresh, snapshot()
